@@ -323,7 +323,7 @@ def check(tier):
                                "interface that is already directly provided) and with interface re-basing: evaluated by the sandwich oracle only",
                                "formal equivalence ZI.Classes = ZI.Classes2 (checked by the driver on every line of every run instead)"])
     rnd = core.rng("C01")
-    nscripts = {"quick": 300, "thorough": 6000}[tier]
+    nscripts = {"quick": 800, "thorough": 6000}[tier]
     scripts = [list(s) for s in CORPUS] + [gen_script(rnd, tier) for _ in range(nscripts)]
     lines = [l for s in scripts for l in s]
     impl, model, divs = runner.correspond(chk, "classes", lines, model_args=["fixed"], label="classes")
